@@ -39,13 +39,14 @@ def run_op(tr, op, doc_tokens, extra=0):
         return "internal", e
 
 
-def setup_history(ctx, rnd, ids=None, random_share=0.0, nslices=4, wide=0.1, mark_p=0.25, budget=None):
+def setup_history(ctx, rnd, ids=None, random_share=0.0, nslices=4, wide=0.1, mark_p=0.25, budget=None, nested_attrs=False):
     sch = pick_schema(rnd, random_share=random_share, ids=ids)
     if sch is None:
         ctx.count("schema_gen_failed")
         return None
     stepmon.register(sch)
     g = gen.DocGen(sch, rnd, wide=wide, mark_p=mark_p)
+    g.nested_attrs = nested_attrs  # list / dict attribute values in a quarter of the generic attributes
     d, p = g.doc(budget)
     others = other_docs(sch, rnd, 2)
     slices = gensteps.valid_slices(sch, rnd, [(d, p)] + others, per=nslices)
